@@ -106,7 +106,7 @@ def plan_world(rng, idx):
                                    p_inverted_attr=r.pick([0.0, 0.1, 0.3]),
                                    var_like_constants=r.pick([0.0, 0.2, 0.4]))
         c = gcontent.gen_content(r, spec, ccfg)
-        kind = r.weighted([('decoded', 5), ('handbuilt', 2), ('transformed', 2)])
+        kind = r.weighted([('decoded', 5), ('handbuilt', 2), ('transformed', 2), ('stale', 2)])
         item = {'kind': kind, 'model': mi, 'meta': gtext.gen_metadata(r.sub('meta'), p_any=0.5)}
         if kind == 'handbuilt':
             triples = [list(t) for t in c['triples']]
@@ -116,6 +116,11 @@ def plan_world(rng, idx):
             item['tree'] = gcontent.layout_tree(r.sub('layout'), c, spec, gcontent.LayoutCfg(p_align=r.pick([0, 0.3, 0.6])))
             if kind == 'transformed':
                 item['transform'] = r.pick(['reify_edges', 'reify_attributes', 'indicate_branches', 'dereify_edges'])
+            if kind == 'stale':
+                # what an edited graph looks like: reordered triples, lost / duplicated / misplaced markers
+                from . import lifecycle as lc
+                item['faults'] = lc.plan_ops(r.sub('faults'), 1 + r.randrange(3),
+                                             [(lc.MARKER_FAULTS, 3), (lc.REORDERINGS, 2)])
         items.append(item)
     return {'models': specs, 'items': items}
 
@@ -189,6 +194,10 @@ class World:
             else:
                 text = gtext.fmt_graph(it['tree'], it.get('meta') or [], {'nl': False})
                 g = penman.decode(text, model=model)
+                if it['kind'] == 'stale':
+                    from . import lifecycle as lc
+                    for fop in it.get('faults', []):
+                        lc.apply_op(g, fop)
                 if it['kind'] == 'transformed':
                     f = getattr(transform, it['transform'])
                     try:
